@@ -71,7 +71,13 @@ func (v *Validator) Validate(value interface{}, checkAll ...bool) error {
 			}
 			return io.EOF
 		}
-		nilParentFields := make(map[string]bool, 16)
+		// keyed by the struct the parent selector is relative to: the same selector
+		// names another value in every slice element, map value or nested struct
+		type parentKey struct {
+			te  *tagexpr.TagExpr
+			pfs string
+		}
+		nilParentFields := make(map[parentKey]bool, 16)
 		err = te.Range(func(eh *tagexpr.ExprHandler) error {
 			if strings.Contains(eh.StringSelector(), tagexpr.ExprNameSeparator) {
 				return nil
@@ -86,13 +92,14 @@ func (v *Validator) Validate(value interface{}, checkAll ...bool) error {
 			}
 			// Ignore this error if the value of the parent is nil
 			if pfs, ok := eh.ExprSelector().ParentField(); ok {
-				if nilParentFields[pfs] {
+				pk := parentKey{eh.TagExpr(), pfs}
+				if nilParentFields[pk] {
 					return nil
 				}
 				if fh, ok := eh.TagExpr().Field(pfs); ok {
 					v := fh.Value(false)
 					if !v.IsValid() || (v.Kind() == reflect.Ptr && v.IsNil()) {
-						nilParentFields[pfs] = true
+						nilParentFields[pk] = true
 						return nil
 					}
 				}
